@@ -7,7 +7,7 @@ from __future__ import annotations
 
 from crosshair.core import register_patch
 
-from .plugins import arith, bitops, fmtint, fpexact, seqwindow
+from .plugins import arith, bitops, fmtint, fpexact, seqwindow, strcmp
 
 STUBS_IN_FORCE: list[str] = []
 
@@ -18,6 +18,8 @@ def install_plugins(fmt=True):
     STUBS_IN_FORCE.append("plugin:bitops (exact LIA encodings of | & ^ with solver-checked side conditions)")
     STUBS_IN_FORCE.append("plugin:arith (fork-free div/mod by positive constants)")
     seqwindow.install()
+    strcmp.install()
+    STUBS_IN_FORCE.append("plugin:strcmp (ordering of two one-character strings = ordering of their code points, fork-free)")
     STUBS_IN_FORCE.append("plugin:seqwindow (symbolic index into a long concrete table: if-then-else chain restricted to the solver-proved reachable index window)")
     fpexact.install()
     STUBS_IN_FORCE.append("plugin:fpexact (int(a / c) for |a/c| < 2**31, c < 2**20 as exact truncation; obligation solver-checked)")
